@@ -431,6 +431,9 @@ NextGuard ==
                \/ BinaryRead("dot",t,s) \/ BinaryRead("rotateU",t,s))
         \/ \E t \in Vecs, a \in Vecs, b \in Vecs, op \in {"add","sub","icomm","acomm","evolve","elementwise"}, w \in {"=","+=","-=","ctor"} :
               Live(a) /\ Live(b) /\ vec[a].dim # vec[b].dim /\ AssignExpr(t, w, op, a, b, FALSE, FALSE, 1, 0)
+        \* the overloads taking rvalue operands have their own guards
+        \/ \E t \in Vecs, a \in Vecs, b \in Vecs, x \in {y \in ExprArgs : y.op \in {"add","sub","elementwise"} /\ (y.arv \/ y.brv)}, w \in {"=","ctor"} :
+              Live(a) /\ Live(b) /\ vec[a].dim # vec[b].dim /\ AssignExpr(t, w, x.op, a, b, x.arv, x.brv, 1, 0)
 SpecGuard == Init /\ [][NextGuard]_vars
 EmitShape == IF nops = 1
              THEN PrintT(<<"EDGE", ToJson([kinds |-> lastAct.kinds, ord |-> VecList, act |-> [lastAct' EXCEPT !.kinds = <<>>], out |-> outcome'])>>)
